@@ -116,16 +116,25 @@ theorem quiescent_untouched (cfg : Config) (hl : cfg.live = true) (ops : List Op
   rw [hnt ai a _ ha hreq hk] at this
   cases this
 
-/-- **Chunk-size resolution.** `getArchetype` accepts a configuration iff the largest minimum does not
-exceed the smallest non-zero maximum (as the code encodes it: 0 = none), and then the chunk size is the
-default clamped by the two; otherwise it is rejected with those two numbers. -/
+/-- **Chunk-size resolution.** `getArchetype` accepts a configuration iff there is no (non-zero) maximum or
+the largest minimum does not exceed the smallest maximum, and then the chunk size is the default clamped by
+the two (`minMax = 0` = no upper clamp); otherwise it is rejected with those two numbers. -/
 theorem chunk_size_resolution (dflt : Nat) (fs : List Size) (s : Nat) :
-    resolve dflt fs = .ok s ↔ maxMin fs ≤ minMax fs ∧ s = clamp dflt (maxMin fs) (minMax fs) :=
+    resolve dflt fs = .ok s ↔
+      (minMax fs = 0 ∨ maxMin fs ≤ minMax fs) ∧ s = clamp dflt (maxMin fs) (minMax fs) :=
   Mustache.ChunkSize.resolve_ok_iff dflt fs s
 
 theorem chunk_size_rejection (dflt : Nat) (fs : List Size) (a b : Nat) :
-    resolve dflt fs = .error a b ↔ minMax fs < maxMin fs ∧ a = minMax fs ∧ b = maxMin fs :=
+    resolve dflt fs = .error a b ↔
+      (minMax fs ≠ 0 ∧ minMax fs < maxMin fs) ∧ a = minMax fs ∧ b = maxMin fs :=
   Mustache.ChunkSize.resolve_error_iff dflt fs a b
+
+/-- **A minimum without a maximum is accepted** (`max = 0` means "no maximum"; fixed in the repository as
+c897ae5, the pinned tree rejected it): when no applying function gives a maximum the configuration is never
+contradictory and the size is the default raised to the largest minimum — clamp(default, min, ∞). -/
+theorem min_without_max_is_accepted (dflt : Nat) (fs : List Size) (h : ∀ s ∈ fs, s.max = 0) :
+    resolve dflt fs = .ok (max dflt (maxMin fs)) :=
+  Mustache.ChunkSize.resolve_no_max dflt fs ((Mustache.ChunkSize.minMax_spec fs).1.mpr h)
 
 /-- `maxMin` is the largest minimum; `minMax` the smallest non-zero maximum (0 iff there is none). -/
 theorem chunk_size_bounds_meaning (fs : List Size) :
@@ -140,8 +149,9 @@ theorem chunk_size_positive (cfg : Config) (hl : cfg.live = true) (ops : List Op
     (ha : (run cfg ops).archs[ai]? = some a) : 0 < a.cs :=
   (run_inv cfg hl ops).csPos ai a ha
 
-/-! ### corners outside the hypotheses (true of the model AND of the implementation: replayed by
-`corpus/C11/corner-*.ops`; reported to the lead as candidate findings, not silently excluded) -/
+/-! ### corner outside the hypotheses (true of the model AND of the implementation: replayed by
+`corpus/C11/corner-check-outside-required.ops` on every run; open known finding
+`key=check-outside-archetype`, not silently excluded) -/
 
 /-- A job whose check mask has no component in a matching archetype (check mask not contained in the
 required mask) is NOT quiescent there: `checkAndSet` treats an empty filtered check mask as "no filter".
@@ -154,10 +164,6 @@ theorem check_outside_archetype_not_quiescent :
   rintro ⟨_, h⟩
   have := h 1 (by simp)
   simp at this
-
-/-- A chunk-size function that sets only a minimum (`max = 0`, which the clamping step reads as "no
-maximum") is rejected by the `max < min` test: outside the contract `1 ≤ min ≤ max` of DESIGN 3.3. -/
-theorem min_without_max_is_rejected : resolve 8 [⟨4, 0⟩] = .error 0 4 := by decide
 
 /-! ### non-vacuity -/
 
@@ -191,5 +197,6 @@ example : resolve 1024 [⟨0, 0⟩, ⟨16, 16⟩] = .ok 16 := by decide
 example : resolve 5 [⟨2, 9⟩, ⟨3, 7⟩, ⟨0, 0⟩] = .ok 5 ∧ resolve 1 [⟨2, 9⟩, ⟨3, 7⟩] = .ok 3 ∧
     resolve 9 [⟨2, 9⟩, ⟨3, 7⟩] = .ok 7 := by decide
 example : resolve 4 [⟨2, 3⟩, ⟨5, 8⟩] = .error 3 5 := by decide
+example : resolve 8 [⟨4, 0⟩] = .ok 8 ∧ resolve 2 [⟨4, 0⟩, ⟨0, 0⟩, ⟨6, 0⟩] = .ok 6 := by decide
 
 end Mustache.Props.C11
